@@ -453,6 +453,7 @@ async fn script_main(script: &Value, log: Log) {
         };
         log.put(json!({"ev": "attempt", "n": n, "t": t_arr, "beh": beh}));
         let mut conn: Option<Conn> = None;
+        let mut unserved: Option<tokio::task::JoinHandle<()>> = None;
         match beh.as_str() {
             "refuse" => {
                 log.put(json!({"ev": "act", "n": n, "t": log.now(), "what": "fin"}));
@@ -485,7 +486,7 @@ async fn script_main(script: &Value, log: Log) {
                 let _ = sock.shutdown().await;
                 tokio::spawn(drain_tcp(sock));
             }
-            "mute" | "close_orderly" | "close_abrupt" | "healthy" => {
+            "mute" | "close_orderly" | "close_abrupt" | "drop_unserved" | "healthy" => {
                 let Some(ws) = ws_accept(sock).await else {
                     log.put(json!({"ev": "up_failed", "n": n, "t": log.now()}));
                     terminal_done = true;
@@ -494,6 +495,9 @@ async fn script_main(script: &Value, log: Log) {
                 log.put(json!({"ev": "up", "n": n, "t": log.now()}));
                 if beh == "mute" {
                     sim.prev = Some((n, Box::pin(drain_ws(ws))));
+                } else if beh == "drop_unserved" {
+                    // frames are swallowed, never answered; the TCP connection is dropped after d ms
+                    unserved = Some(tokio::spawn(drain_ws(ws)));
                 } else {
                     conn = Some(serve(ws));
                 }
@@ -502,6 +506,12 @@ async fn script_main(script: &Value, log: Log) {
         }
         if open {
             sim.local_open(n, false).await;
+        }
+        if let Some(h) = unserved.take() {
+            tokio::time::sleep(Duration::from_millis(d)).await;
+            log.put(json!({"ev": "act", "n": n, "t": log.now(), "what": "tcp_drop"}));
+            h.abort();
+            let _ = h.await;
         }
         if let Some(mut c) = conn {
             sim.await_locals(SERVE_WAIT_MS).await;
